@@ -95,6 +95,19 @@ class C10Stream(A.ActorStream):
                 L["dc"] = True
                 L["last"] = "cancelled-in-delay"
                 fin_at[e[2]] = (i, e[0])
+        # restarts happen at most one per loop iteration: a callback scheduled (call_soon) right after a failing run gets to
+        # run before the run logic is invoked again
+        waiting_tick = {}
+        for e in log:
+            if e[1] == "exit" and e[3] == "exc":
+                waiting_tick[e[2]] = e[0]
+            elif e[1] == "tick":
+                waiting_tick.pop(e[2], None)
+            elif e[1] == "enter" and e[2] in waiting_tick:
+                V(f"restart: actor {loops[e[2]]['a']} was re-invoked in the same step of its task in which the previous run failed "
+                  f"(t={e[0]}us): a callback scheduled right after the failure did not get to run, so a cancel()/stop() "
+                  f"requested between the two runs could not take effect")
+                waiting_tick.pop(e[2], None)
         # at most one invocation of one actor at a time, over all its loop tasks
         active = {}
         for e in log:
